@@ -1,6 +1,6 @@
 HOOK_COMMITS = []
 ENGINES = [
-    {"name": "kernel", "path": "mc/kernel.py", "serves_properties": ["C01", "C02", "C06", "C12", "C14", "C20", "C03", "C04", "C05", "C09", "C13", "C15", "C16", "C17", "C18", "C19"], "kind_free_text": "hand-written bounded exhaustive explorer: units enumerate a finite space (alphabet x bound), sharded over a fork pool; recorder counts evaluations/distinct cases/states/transitions/witnesses; replay files; known-findings triage"},
+    {"name": "kernel", "path": "mc/kernel.py", "serves_properties": ["C%02d" % i for i in range(1, 21)], "kind_free_text": "hand-written bounded exhaustive explorer: units enumerate a finite space (alphabet x bound), sharded over a fork pool; recorder counts evaluations/distinct cases/states/transitions/witnesses; replay files; known-findings triage"},
 ]
 NOT_YET = {}
 CHECKS = {
@@ -99,5 +99,29 @@ CHECKS = {
         "technique": "exhaustive whole-domain enumeration of encoder/decoder pairs (bounded model checking of codecs, no sampling)",
         "text": "Every value of each codec's domain (all 65536 F2Dot14, all 255UShort, all base-128/uint32var below 2^21 plus every power-of-two boundary, every CFF/T2 integer in +-70000 plus boundaries, k*10^e reals, run-grammar point sets and delta vectors, all <=2-byte strings through eexec, every valid printable tag in thorough) is pushed through encode then decode and compared. For finite small domains this is a complete decision; for the others it is complete over the stated lattice.",
         "note": "Trusted: Python struct/array; the lattices are taken from the branch constants of the encoders. 16.16 values and reals away from the lattice are not visited.",
+    },
+    "C07": {
+        "level": "exploration",
+        "technique": "exhaustive enumeration of (font, subset request, option deviation) within stated bounds - every non-empty subset of small character sets, size<=2 / co-size<=1 families of larger ones, every single option deviation - each run through the real load/subset/save pipeline and judged differentially by HarfBuzz on every short text over the retained characters",
+        "text": "19 generated fonts covering every GSUB/GPOS lookup type, GDEF, kern, gvar/HVAR/MVAR, CFF subroutines, COLR v0/v1, cmap 14 x every non-empty subset of their characters x every single option deviation; requests by glyph name, glyph ID and text; corpus fonts (AOTS lookup families, Tests/subset inputs, vendored VFs) x focus-alphabet subsets x option deviations. For each subsetting: every requested character/glyph present; all texts of length <= 3 over the retained characters shape to the same glyph names, advances and offsets (all script/language modes, variation lattice); outlines, advances and variations of retained glyphs equal; structural scan for references to removed glyphs; retain-gids keeps IDs; option-specific post-conditions.",
+        "note": "Trusted: HarfBuzz 12.1 as the observer on both sides. Dropped-because-empty GPOS script / GSUB+GPOS language-system records and the .notdef gvar advance variation are recorded known findings; a class-pair shadowing defect and a format 0 cmap defect were repaired. usMaxContext over-estimates are not judged (outside the property).",
+    },
+    "C08": {
+        "level": "exploration",
+        "technique": "exhaustive enumeration of per-axis limit specifications (pin / range / moved default over a 5-point lattice per axis, products over axes within a deviation bound) x every lattice location inside the new limits, original vs instance evaluated by two independent evaluators (fontTools float glyph set / HarfBuzz) under a derived rounding budget",
+        "text": "Every corpus and generated variable font (glyf/gvar, CFF2, HVAR/VVAR/MVAR, avar and avar-2, GDEF/GPOS variations, feature variations, cvar, composites) is instanced under every limit specification of the lattice (1 axis: all; 2 axes: product; more: singles, pairs, pin-all) with optimize on/off and updateFontNames; the instance is saved, reloaded and compared with the original at every lattice location inside the limits: outlines, advances, MVAR metrics, shaping of all pairs (GPOS/GDEF values), substitutions from feature variations, fvar/avar mapping of user coordinates; full pins leave no variation tables.",
+        "note": "Budget = 0.5 for the rounded default + 0.5 (1.0 with IUP) x scalar per stored delta set + 2.14 quantisation bound, derived in the assumptions. One feature-variations defect (record on pinned axes that holds while others remain) is a recorded known finding; a names crash was repaired.",
+    },
+    "C10": {
+        "level": "exploration",
+        "technique": "exhaustive enumeration of designspaces (every master-location subset of 1-, 2- and 3-axis lattices containing the default x default position x axis map x outline kind x content kind) built by the real varLib.build and evaluated by HarfBuzz at every master location against the static master",
+        "text": "1 axis: every subset of 5 positions containing the default; 2 axes: every subset of size <= 4 (thorough 6) of the 3x3 lattice; 3 axes: corners plus one (two) further points; x default at an end / in the middle, x axis maps {none, linear, bent}, x {TrueType, CFF}, x contents {outlines, composites, pair and class kerning, kerning in some masters only, mark anchors, MVAR metrics, sparse glyph / sparse layout masters}, optimize on/off, rotated source order; plus the 33 corpus designspaces bound to their TTX masters. Oracle: the built font saved and reopened equals each master at its location (outlines, advances, shaped kerning and mark offsets, MVAR metrics) within half a unit per rounded component, default master exact, fvar/avar equal to the designspace maps at knots and midpoints.",
+        "note": "Trusted: HarfBuzz 12.1, fontTools table readers for the saved result. Generated lattices normalise exactly on the 2.14 grid (asserted) so no quantisation slack applies there. A single-master CFF crash was repaired.",
+    },
+    "C11": {
+        "level": "model_checking",
+        "technique": "exhaustive enumeration of feature-file programs from an abstract rule grammar (all programs of <= 2 statements, every cut into lookups, flags, scopes, every spelling) x every glyph string up to length 3; the compiled tables executed by HarfBuzz are compared step for step with a reference interpreter of the abstract rules (explicit-state: states = (program, string) pairs, transitions = rule applications)",
+        "text": "Every abstract program of 1..2 rule statements (thorough 3 on a reduced pool) over single/multiple/alternate/ligature/contextual/chained/ignore/reverse substitution and single/pair/class-pair/cursive/mark-base/mark-mark/contextual positioning, with lookup flags, script/language scopes and every spelling (lookup blocks, named classes and values, inline vs named lookups) is compiled by feaLib; HarfBuzz on the compiled tables must agree with oracles/otlref.py on glyphs, advances and offsets for every glyph string up to length 3; asFea(parse(t)) is a fixed point and compiles to byte-identical tables for every generated text and all 163 corpus .fea files.",
+        "note": "Trusted: HarfBuzz 12.1 and oracles/otlref.py (written from the OpenType and feature-file specifications, shares no code with feaLib). Constructs outside the rule grammar are covered only through the asFea fixed point. An inline-ligature sharing defect was repaired.",
     },
 }
